@@ -1,7 +1,7 @@
 #!/usr/bin/env python3
 """Run the registered quick checks against behaviour-preserving refactors (false-alarm measurement).
 
-usage: tools/benignrun.py <dir-with-Cxx/X/patch.diff> [ids..]
+usage: tools/benignrun.py <dir-with-Cxx-X/patch.diff, normally /verif/benign> [ids..]   (BENIGN_ALSO=C01,C05 adds checks, BENIGN_SEEDS=0,1, BENIGN_JOBS=6)
 Each patch is applied to a scratch worktree of /repo (under /tmp, removed afterwards); ./vcheck Cxx runs with VERIF_REPO pointing there.
 Prints one line per patch: rc of the check for each seed and the first VIOLATION lines."""
 import sys, os, subprocess, json, glob, tempfile, shutil
@@ -12,7 +12,7 @@ def sh(cmd, cwd=None, timeout=7200):
     return p.returncode, p.stdout
 EXTRA = {}
 def one(d):
-    prop = d.split('/')[-2]; x = d.split('/')[-1]; sid = '%s-%s' % (prop, x)
+    sid = os.path.basename(d); prop = sid.split('-')[0]
     wt = tempfile.mkdtemp(prefix='wt-benign-', dir='/tmp'); os.rmdir(wt)
     outdir = tempfile.mkdtemp(prefix='benout-', dir='/tmp')
     sh('git -C /repo worktree add --detach %s HEAD' % wt)
@@ -35,6 +35,6 @@ def one(d):
     return res
 if __name__ == '__main__':
     root = sys.argv[1]; ids = sys.argv[2:]
-    ds = [d for d in sorted(glob.glob(os.path.join(root, 'C??', '[AB]'))) if os.path.exists(os.path.join(d, 'patch.diff')) and (not ids or '%s-%s' % (d.split('/')[-2], d.split('/')[-1]) in ids)]
-    with ThreadPoolExecutor(max_workers=6) as ex: out = list(ex.map(one, ds))
-    json.dump(out, open('/tmp/benign_results.json', 'w'), indent=1)
+    ds = [d for d in sorted(glob.glob(os.path.join(root, 'C??-[AB]'))) if os.path.exists(os.path.join(d, 'patch.diff')) and (not ids or os.path.basename(d) in ids)]
+    with ThreadPoolExecutor(max_workers=int(os.environ.get('BENIGN_JOBS', '6'))) as ex: out = list(ex.map(one, ds))
+    json.dump(out, open(os.path.join(V, 'benign', 'results.json'), 'w'), indent=1)
